@@ -22,6 +22,17 @@ func verifPoll(closeCh chan struct{}) {
 	}
 }
 
+// VerifSynCacheGate, when set, is called by a thesaurus cache look-up that missed
+// under the read lock, after that lock has been released and before the write
+// lock is requested (a scheduling point for replaying interleavings of readers).
+var VerifSynCacheGate func()
+
+func verifSynCacheGate() {
+	if g := VerifSynCacheGate; g != nil {
+		g()
+	}
+}
+
 var verifCtxFresh int64
 
 func init() {
